@@ -445,6 +445,11 @@ func ruleCatalogue() []ruleCase {
 				bounds = append(bounds, bound{"gt-int64", 0, 1<<63 + 5, 0})
 			}
 		}
+		if nk.Float {
+			// a value without an exact binary representation (the shortest decimal of the float32 differs from
+			// the decimal expansion of its float64 widening)
+			bounds = append(bounds, bound{"inexact", 0, 0, 3.14159})
+		}
 		if nk.Bits == 32 && !nk.Float {
 			if nk.Signed {
 				bounds = append(bounds, bound{"near-max", math.MaxInt32 - 20, 0, 0})
@@ -457,7 +462,7 @@ func ruleCatalogue() []ruleCase {
 				if !nk.Signed && b.Class == "negative" {
 					continue
 				}
-				if op == "in" && b.Class != "small" {
+				if op == "in" && b.Class != "small" && b.Class != "inexact" {
 					continue
 				}
 				b, op, nk := b, op, nk
@@ -478,7 +483,11 @@ func ruleCatalogue() []ruleCase {
 					case "gt=lt", "gt>lt":
 						rc.Rules = reshapeRange(nk.rules("gt+lt", b.I, b.U, b.F, nil), op)
 					default:
-						rc.Rules = nk.rules(op, b.I, b.U, b.F, []float64{10, 20, 30})
+						inList := []float64{10, 20, 30}
+						if b.Class == "inexact" {
+							inList = []float64{0.1, 19.99, 2.5}
+						}
+						rc.Rules = nk.rules(op, b.I, b.U, b.F, inList)
 					}
 					// probes around the bound(s)
 					addP := func(class string, di int64, df float64) {
@@ -506,7 +515,11 @@ func ruleCatalogue() []ruleCase {
 					}
 					if op == "in" {
 						rc.Probes = nil
-						for i, x := range []float64{10, 20, 30, 11, 0} {
+						inProbes := []float64{10, 20, 30, 11, 0}
+						if b.Class == "inexact" {
+							inProbes = []float64{0.1, 19.99, 2.5, 0.2, 0}
+						}
+						for i, x := range inProbes {
 							rc.Probes = append(rc.Probes, scalarProbe(fmt.Sprintf("in-probe%d", i), nk.mk(int64(x), uint64(x), x)))
 						}
 					}
